@@ -160,6 +160,9 @@ func (c *Checker) undecidedEffects(rule, inst string, s *Summary) bool {
 	for _, o := range s.Outcomes {
 		for _, e := range o.St.effects {
 			if e.Kind == EUndecided {
+				if e.Early && mayEffectRule(rule) {
+					continue
+				}
 				k := c.effPos(e) + e.Note
 				if !seen[k] {
 					seen[k] = true
@@ -170,6 +173,19 @@ func (c *Checker) undecidedEffects(rule, inst string, s *Summary) bool {
 		}
 	}
 	return any
+}
+
+// mayEffectRule: rules that judge the set of effects a function may have (who writes which header, which
+// divisions, allocations, index expressions occur and under which facts). For them a return from inside a loop is
+// covered by the loop's effects quantified over all iterations; the rules that compare written regions or returned
+// counts with a specification are not in this list and keep rejecting such loops.
+func mayEffectRule(rule string) bool {
+	for _, p := range []string{"C12-V", "C20-Z1", "C20-Z3", "C19-N1", "C19-N2", "C18-H1"} {
+		if strings.HasPrefix(rule, p) {
+			return true
+		}
+	}
+	return false
 }
 
 func loadKnown(dir string) KnownFile {
